@@ -38,14 +38,30 @@ def r1_v1_trailer(ck, F):
     fl = {k: tup(v) for k, v in a.get("fields", {}).items()}
     want = {"file_version": ("version",), "index_block_offset": ("read", 0, ()), "compression_type": ("read", 1, ("from_u8",)), "entries_count": ("read", 2, ()), "index_levels": ("const", 0)}
     ck.ob(R, "v1-fields", fl == want, f"V1 metadata fields come from {fl} (root offset = 1st read, codec = from_u8(2nd read), count = 3rd read, index_levels = 0)", rb)
-    # codec id validated: from_u8(..).ok_or(InvalidCompressionType)?
-    bb, arms = fmt.version_arms(rb)
-    reg = arms.get("FormatV1", set())
-    oo = [(s, c, t) for s, c, t in calls(rb, "Option::<T>::ok_or") if s.bb in reg]
-    ok = len(oo) == 1
-    if ok:
-        x = rb.arg_exprs(oo[0][0])
-        ok = is_call(x[0], A("from_u8")) and x[1].k == "agg" and x[1].x.get("variant") == "InvalidCompressionType"
+    # codec id validated: the compression type is the Some payload of from_u8(byte) and its None is rejected with
+    # InvalidCompressionType (`.ok_or(..)?`, a match, a let-else ..)
+    sb = fmt.specialise(rb, "FileVersion", "FormatV1")
+    ok = False
+    for bb in sorted(sb.normal_blocks()):
+        if sb.term(bb)["t"] != "switch":
+            continue
+        e, enum, labels, oth = switch_on(sb, bb)
+        if e.k == "discr" and enum == "std::option::Option" and is_call(e.a[0], A("from_u8")) and "None" in labels:
+            # the None arm builds the InvalidCompressionType error (which `?` then returns) and no Ok value
+            reg = arm_region(sb, bb, labels["None"])
+            built = []
+            for s_, st_ in sb.sites():
+                if s_.i is not None and s_.bb in reg and st_["s"] == "assign" and st_["rv"]["rv"] == "agg" and st_["rv"].get("ak") == "adt":
+                    built.append(sb._expr_of_def((s_, "assign", st_["rv"])))
+            rej = [x for x in built if x.x.get("variant") == "Err" and "InvalidCompressionType" in x.show()]
+            oks = [x for x in built if x.x.get("variant") == "Ok"]
+            ok = bool(rej) and not oks
+    if not ok:
+        oo = [(s, c, t) for s, c, t in calls(rb, "Option::<T>::ok_or")]
+        for s, c_, t in oo:
+            x = rb.arg_exprs(s)
+            if is_call(x[0], A("from_u8")) and x[1].k == "agg" and x[1].x.get("variant") == "InvalidCompressionType":
+                ok = True
     ck.ob(R, "v1-codec-validated", ok, "an unknown codec id is rejected with InvalidCompressionType", rb)
     w = fmt.trailer_write(F).get("FormatV1", {}).get("seq", [])
     ck.ob(R, "v1-agrees-with-writer", [(x[0], x[1]) for x in w[:-1]] == seq and w and w[-1][2] == fm["magic_v1"], f"the V1 arm of write_into writes {w}", F.body(A("meta_write")))
